@@ -10,6 +10,7 @@ mod ir;
 mod ops;
 mod runner;
 mod safe_print;
+mod stub;
 mod tff;
 
 use runner::Tier;
@@ -22,6 +23,9 @@ fn root() -> PathBuf {
 }
 
 fn main() {
+    if std::env::args().next().is_some_and(|a| a.ends_with("vampire")) {
+        stub::main();
+    }
     runner::install_panic_hook();
     let args: Vec<String> = std::env::args().collect();
     let usage = || -> ! {
